@@ -758,6 +758,81 @@ def gen_prog(rng, depth, budget):
     return toks
 
 
+LEAVES = ["logs", "cache", "sub dir", "x", "data/~tmp", "{}", ""]
+MIDDLES = ["app", "releases/current", "m", "a b"]
+PARENTS = ["/srv/alpha", "/srv/beta", "~/one", "~/two", "/", "/srv", "rel", "other rel", "/srv/{a}", "/srv/alpha/"]
+
+
+def gen_siblings(rng):
+    """2-4 SIBLING stacks (depth 2-4) on one Context that share relative leaf (and middle) names under DIFFERENT parents;
+    the run/sudo/observation sits only in the innermost block (no resolution in the parent block); stacks are also
+    re-entered a second time; cd and prefix siblings are mixed; some siblings are left by an exception"""
+    leaf = rng.choice(LEAVES)
+    mids = [rng.choice(MIDDLES) for _ in range(2)]
+    depth = rng.randint(2, 4)
+    parents = rng.sample(PARENTS, rng.randint(2, 4))
+    if rng.random() < 0.4:
+        parents.insert(rng.randrange(len(parents) + 1), rng.choice(parents))  # the SAME stack entered twice
+    toks = []
+    outer = rng.random() < 0.25
+    if outer:
+        toks.append([rng.choice(["C", "P"]), rng.choice(["/base", "wrap"])])
+    for par in parents:
+        stack = [par] + mids[:depth - 2] + [leaf if rng.random() < 0.85 else rng.choice(LEAVES)]
+        opened = 0
+        guarded = rng.random() < 0.2
+        if guarded:
+            toks.append(["Y"])
+        for j, d in enumerate(stack):
+            if rng.random() < 0.15:
+                toks.append([rng.choice(["P", "GP"]), rng.choice(PREFIXES + ["act {}"])])
+                opened += 1
+            toks.append([rng.choice(["C", "C", "C", "GC"]), d])
+            opened += 1
+        inner = rng.choice([[["R", "ls"]], [["R", "ls"]], [["U", "ls", "absent", []]], [["O"], ["R", "x"]], [["U", "id", "bob", ["A"]], ["R", "ls"]]])
+        toks += [list(t) for t in inner]
+        if guarded:
+            toks.append(["X", rng.choice([0, 1, 2, 3])])
+        toks += [["E"]] * opened
+        if guarded:
+            toks.append(["E"])
+        if rng.random() < 0.2:
+            toks.append(rng.choice([["O"], ["R", "pwd"]]))
+    if outer:
+        toks.append(["E"])
+    return toks
+
+
+def gen_cwd_seq(rng):
+    """stacks resolved one after the other on ONE Context (the stack is replaced in place between resolutions)"""
+    leaf = rng.choice(LEAVES)
+    n = rng.randint(2, 5)
+    stacks = []
+    for _ in range(n):
+        x = rng.random()
+        if x < 0.6:
+            stacks.append([rng.choice(PARENTS)] + [rng.choice(MIDDLES) for _ in range(rng.randint(0, 2))] + [leaf])
+        elif x < 0.8 and stacks:
+            stacks.append(list(rng.choice(stacks)))
+        else:
+            stacks.append([gen_path(rng) for _ in range(rng.randint(0, 4))])
+    return stacks
+
+
+def check_cwdseq(case):
+    from invoke import Context, Config
+    c = Context(Config(lazy=True))
+    got, why = [], None
+    for st in case["stacks"]:
+        del c.command_cwds[:]
+        c.command_cwds.extend(st)
+        g = c.cwd
+        got.append(enc_chars(g))
+        if why is None and g != expected_cwd(st):
+            why = "cwd of %r (resolved on one Context after %r) is %r, demand %r" % (st, case["stacks"][:len(got) - 1], g, expected_cwd(st))
+    return " ## ".join(got), why
+
+
 def gen_deep_exit(rng):
     """blocks nested several levels deep, left by one exception from the innermost level, caught at a random outer
     level, followed by observations, run/sudo calls and NEW blocks on the same Context"""
@@ -848,6 +923,8 @@ def replay(case):
         line, why = check_ctx(case)
     elif k == "cwd":
         line, why = check_cwd(case)
+    elif k == "cwdseq":
+        line, why = check_cwdseq(case)
     elif k == "sudopw":
         line, why = check_sudopw(case)
     elif k == "hist":
@@ -964,6 +1041,10 @@ def run(ctx):
     for i in range(ctx.n(900, 14000)):
         toks = gen_prog(rng, 0, [rng.randint(3, 18)]) if i % 3 else gen_deep_exit(rng)
         cases.append({"kind": "ctx", "prompt": gen_prompt(rng), "user": gen_cfg_user(rng), "toks": toks})
+    for _ in range(ctx.n(350, 5000)):
+        cases.append({"kind": "ctx", "prompt": gen_prompt(rng), "user": gen_cfg_user(rng), "toks": gen_siblings(rng), "fam": "siblings"})
+    for _ in range(ctx.n(300, 4000)):
+        cases.append({"kind": "cwdseq", "stacks": gen_cwd_seq(rng)})
     tf = template_family()
     cases += tf
     out.hist["ctx:template-family"] = len(tf)
@@ -1023,6 +1104,9 @@ def run(ctx):
         if k == "hist":
             lines += hist_lines(c)
             continue
+        if k == "cwdseq":
+            lines += ["cwd " + enc_strs(st) for st in c["stacks"]]
+            continue
         if k == "sudopw":
             lines.append("resp %s %s" % ("A" if c["kw"] == "absent" else enc_v(c["kw"]), enc_v(c["cfg"])))
             continue
@@ -1040,7 +1124,11 @@ def run(ctx):
 
     for c, m in zip(cases, model):
         k = c["kind"]
-        if k == "hist":
+        if k == "cwdseq":
+            out.case(c, True)
+            got, why = check_cwdseq(c)
+            out.hist["cwd:sequence-on-one-context"] += 1
+        elif k == "hist":
             out.case(c, True)
             got, why = check_hist(c, defaults)
             out.hist["hist:" + c["mode"]] += 1
@@ -1066,6 +1154,8 @@ def run(ctx):
             out.case(c, any(t[0] in OPEN for t in c["toks"]))
             got, why = check_ctx(c)
             out.hist["ctx"] += 1
+            if c.get("fam") == "siblings":
+                out.hist["ctx:sibling-stacks"] += 1
             if " raised=-" not in got:
                 out.hist["ctx:raised-to-top:" + got.split(" raised=")[1].split(" ")[0]] += 1
             for t in c["toks"]:
